@@ -144,7 +144,7 @@ def bounded(tier, seed):
 
 
 FAMILY = [('minimize', 'minimize'), ('AcquisitionBase.', 'add-noise'), ('UniformAcquisition', 'add-noise'), ('RandMaxVar', 'randmaxvar'),
-          ('MaxVar.acquire', 'bo'), ('ExpIntVar', 'bo'), ('BayesianOptimization', 'bo'), ('ParameterInference', 'bo'),
+          ('MaxVar.acquire', 'rules'), ('ExpIntVar', 'rules'), ('BayesianOptimization', 'bo'), ('ParameterInference', 'bo'),
           ('LCBSC.evaluate_gradient', 'gradient'), ('MaxVar.evaluate_gradient', 'gradient')]
 _replay_cache = {}
 
@@ -156,7 +156,7 @@ def replay_refuted(cname, rf):
     if fam is None:
         return dict(found=False, note='no native family for %s' % cname)
     if fam not in _replay_cache:
-        _replay_cache[fam] = [f for g in b.run('thorough' if fam in ('minimize', 'add-noise', 'randmaxvar') else 'quick', 0, which=(fam,)) for f in g['failures']]
+        _replay_cache[fam] = [f for g in b.run('thorough' if fam in ('minimize', 'add-noise') else 'quick', 0, which=(fam,)) for f in g['failures']]
     fails = _replay_cache[fam]
     kind = rf.get('kind', '')
     want = None
